@@ -152,11 +152,11 @@ Definition run_matches (r : result run) (next : N) (lg : list (pstr * value)) (n
   | Err _ => false
   end.
 
-(* what is checked in every cell: constructor signature, state of the class attributes,
-   the setter log / stored value / allocation for: no argument (twice: freshness), an
-   explicit argument, and a later assignment *)
-Definition cell_ok (c : cell) : bool :=
-  let cl := make_class (body_blocks [cell_decl c]) in
+(* what is checked for a single-property class with public name `wheels`: constructor
+   signature, state of the class attributes, the setter log / stored value / allocation for:
+   no argument (twice: freshness), an explicit argument, and a later assignment *)
+Definition body_ok (b : list stmt) (e : expect) : bool :=
+  let cl := make_class b in
   let sig_ok := match dataclass_fields cl with
                 | Ok [(n, DPropObj)] => pstr_eqb n wheels
                 | _ => false
@@ -165,7 +165,7 @@ Definition cell_ok (c : cell) : bool :=
                   | Some (CProp true (Some _)), None => true
                   | _, _ => false
                   end in
-  let dflt (next : N) := match cell_expect c with
+  let dflt (next : N) := match e with
                          | XVal v => (v, next)
                          | XFresh f => (VNew f next, (next + 1)%N)
                          end in
@@ -174,7 +174,7 @@ Definition cell_ok (c : cell) : bool :=
   sig_ok && attrs_ok
   && run_matches (construct cl [] 5) 5 [(wheels, v1)] n1
   && run_matches (construct cl [] n1) n1 [(wheels, v2)] n2
-  && negb (match cell_expect c with XFresh _ => value_eqb v1 v2 | XVal _ => false end)
+  && negb (match e with XFresh _ => value_eqb v1 v2 | XVal _ => false end)
   && run_matches (construct cl [(wheels, VStr (S "6"))] 5) 5 [(wheels, VStr (S "6"))] 5
   && match construct cl [] 5 with
      | Ok r => match set_attr (attrs cl) r wheels (VInt 123) with
@@ -184,3 +184,52 @@ Definition cell_ok (c : cell) : bool :=
                end
      | Err _ => false
      end.
+
+Definition cell_ok (c : cell) : bool := body_ok (body_blocks [cell_decl c]) (cell_expect c).
+
+(* ---- the "both annotated" variant of the docs: the public field carries the default (in
+   Annotated or implied by its type), and an extra `_wheels: int = field(init=False)` line is
+   present "to make the IDE happier" (it may also carry the default: `field(default=x, init=False)`) ---- *)
+Inductive ukind :=
+| UBare               (* _wheels: int *)
+| UFieldEmpty         (* _wheels: int = field(init=False) *)
+| UFieldDefault       (* _wheels: int = field(default=7, init=False) *)
+| UValue              (* _wheels: int = 7 *)
+| UFieldFactory.      (* _wheels: int = field(default_factory=lambda: [1], init=False) *)
+
+Definition ukinds : list ukind := [UBare; UFieldEmpty; UFieldDefault; UValue; UFieldFactory].
+Definition pub_kinds : list dkk := [KNone; KAnnDefault; KAnnFactory; KAnnEmpty].
+
+Definition urhs (u : ukind) : option rhs :=
+  match u with
+  | UBare => None
+  | UFieldEmpty => Some (RField fd_empty)
+  | UFieldDefault => Some (RField (fd_def (VInt 7)))
+  | UValue => Some (RVal (VInt 7))
+  | UFieldFactory => Some (RField (fd_fac (FacUser 1)))
+  end.
+
+Definition cell2 : Type := bool * (ukind * (dkk * (ty * expect))).   (* bool: public line first *)
+Definition matrix_both : list cell2 :=
+  list_prod [true; false] (list_prod ukinds (list_prod pub_kinds ann_table)).
+
+Definition cell2_body (c : cell2) : list stmt :=
+  let '(pub_first, (u, (k, (t, _)))) := c in
+  let sp := SAnn wheels (cell_ty k t) None in
+  let su := SAnn (under_of wheels) (TConc CInt) (urhs u) in
+  (if pub_first then [sp; su] else [su; sp]) ++ [SPropDef wheels true].
+
+Definition cell2_expect (c : cell2) : expect :=
+  let '(_, (u, (k, (_, implied)))) := c in
+  match u with
+  | UFieldDefault | UValue => XVal (VInt 7)
+  | UFieldFactory => XFresh (FacUser 1)
+  | UBare | UFieldEmpty =>
+      match k with
+      | KAnnDefault => XVal (VInt 9)
+      | KAnnFactory => XFresh (FacUser 2)
+      | _ => implied
+      end
+  end.
+
+Definition cell2_ok (c : cell2) : bool := body_ok (cell2_body c) (cell2_expect c).
